@@ -80,6 +80,14 @@ fn prepare_project(file_path: &str, output_dir: Option<&str>) -> CliResult<Prepa
     codegen.scan_for_async(&main_module.ast);
     codegen.scan_for_web(&main_module.ast);
     codegen.scan_for_list_helpers(&main_module.ast);
+    // Code of every module ends up in the generated crate: a feature used only in a dependency module needs its
+    // runtime crate in Cargo.toml just the same.
+    for module in dep_modules {
+        codegen.scan_for_serde(&module.ast);
+        codegen.scan_for_async(&module.ast);
+        codegen.scan_for_web(&module.ast);
+        codegen.scan_for_list_helpers(&module.ast);
+    }
 
     let needs_serde = codegen.needs_serde();
     let needs_tokio = codegen.needs_tokio();
